@@ -34,14 +34,14 @@ var Prop = &engine.Prop{
 		"JsUnixTime/Unix2Time carry whole seconds: the round trip is required to give back the unix second, not the sub-second part",
 		"SQL Scan is exercised only with the Go types the Scan methods name (integers in int64 range, time.Time, string/[]byte); other driver types are outside the property's quantifier",
 	},
-	ShardsQuick: 4, ShardsThorough: 16,
+	ShardsQuick: 4, ShardsThorough: 160,
 	Kinds: []engine.Kind{
-		{Name: "rt_direct", Quick: 1200, Thorough: 36000, Fn: rtDirectCase},
-		{Name: "rt_json", Quick: 1200, Thorough: 36000, Fn: rtJSONCase},
-		{Name: "rt_sql", Quick: 800, Thorough: 24000, Fn: rtSQLCase},
-		{Name: "hex", Quick: 800, Thorough: 24000, Fn: hexCase},
-		{Name: "tok_direct", Quick: 3000, Thorough: 90000, Fn: tokDirectCase},
-		{Name: "tok_json", Quick: 2400, Thorough: 72000, Fn: tokJSONCase},
+		{Name: "rt_direct", Quick: 1200, Thorough: 360000, Fn: rtDirectCase},
+		{Name: "rt_json", Quick: 1200, Thorough: 360000, Fn: rtJSONCase},
+		{Name: "rt_sql", Quick: 800, Thorough: 240000, Fn: rtSQLCase},
+		{Name: "hex", Quick: 800, Thorough: 240000, Fn: hexCase},
+		{Name: "tok_direct", Quick: 3000, Thorough: 900000, Fn: tokDirectCase},
+		{Name: "tok_json", Quick: 2400, Thorough: 720000, Fn: tokJSONCase},
 	},
 	Floors: floors,
 }
